@@ -312,9 +312,10 @@ OPS = [('set', KJ, 'H1'), ('set', KJ, 'H2'), ('set', KT, 'H1'), ('set', KT, 'H2'
        ('pop', KJ), ('pop', KT), ('popd', KV),
        ('setdefault', KJ, 'H2'), ('setdefault', KT, 'H1'), ('setdefault', KV, 'H1'),
        ('update', ((KJ, 'H2'), (KT, 'H1'))), ('update', ()), ('update', ((KV, 'H2'),)),
+       ('update_raise', ((KJ, 'H2'),)), ('update_raise', ((KT, 'H2'), (KJ, 'H1'))),
        ('clear',), ('copy_switch',), ('copy_keep',)]
 OPS_SMALL = [('set', KM, 'H1'), ('set', KJ, 'H2'), ('set', KT, 'H1'), ('set', KV, 'H2'), ('set', KP, 'H1'), ('del', KJ), ('pop', KT), ('setdefault', KJ, 'H1'),
-             ('update', ((KV, 'H1'), (KJ, 'H1'))), ('clear',), ('copy_switch',), ('copy_keep',)]
+             ('update', ((KV, 'H1'), (KJ, 'H1'))), ('update_raise', ((KJ, 'H2'),)), ('clear',), ('copy_switch',), ('copy_keep',)]
 
 _model_memo = {}
 _SSE_LOOP = [None]
@@ -441,6 +442,18 @@ class HandlersHarness:
         elif name == 'update':
             payload = [(k, H[v]) for k, v in op[1]]
             gi, gm = both(lambda: h.update(dict(payload)), lambda: m.update(dict(payload)))
+        elif name == 'update_raise':
+            # update() from a source that fails part-way: the pairs delivered before the failure ARE in the mapping
+            def source():
+                for k, v in op[1]:
+                    yield (k, H[v])
+                raise RuntimeError('handler source failed')
+            for target in (h, m):
+                try:
+                    target.update(source())
+                except RuntimeError:
+                    pass
+            gi = gm = ('V', None)
         elif name == 'clear':
             gi, gm = both(lambda: h.clear(), lambda: m.clear())
         elif name == 'copy_switch':
